@@ -2,7 +2,7 @@
 # seeded_regress.sh [ids...] : applies every stored seeded change to /repo in turn, runs the quick check of the property it
 # breaks (40 s budget), reverts, and prints one line per change. A change is "caught" when the check exits 1 with a VIOLATION line.
 cd /verif
-ids="$@"; [ -z "$ids" ] && ids=$(ls seeded)
+ids="$@"; [ -z "$ids" ] && ids=$(cd seeded && ls -d */ | tr -d /)
 for id in $ids; do
   prop=$(python3 -c "import json;print(json.load(open('seeded/$id/meta.json'))['breaks_property'])")
   props=$prop
